@@ -198,7 +198,7 @@ def writeChunks (t : Huffman.Table) (ack : Nat) (token : Option Token) (requestR
 
 /-- `write_connless_packet` -/
 def writeConnless (payload : List UInt8) (cap : Nat) : WriteResult :=
-  if payload.length > MAX_PAYLOAD then .tooLongData
+  if payload.length > CONNLESS_WRITE_LIMIT then .tooLongData
   else match bufWrite cap [] (List.replicate (HEADER_SIZE + PADDING_SIZE_CONNLESS)
                                 (UInt8.ofNat (bytelits_write_connless_packet.getD 0 0))) with
     | none => .capacity
@@ -433,7 +433,7 @@ def read (t : Huffman.Table) (bytes : List UInt8) (tokenHint : Option Bool) (buf
       match dec with
       | .error r => r
       | .ok (payload, src, scratch) =>
-      if payload.length > MAX_PACKETSIZE - HEADER_SIZE then .err .compression wh
+      if payload.length > READ_PAYLOAD_LIMIT then .err .compression wh
       else
         let hasToken := match tokenHint with
           | some b => b
